@@ -36,6 +36,14 @@ pub enum Node {
     /// child receives it with `!#(@'int)`. With `tail`, the requester is reached through a tail call,
     /// so the handle carries a function that was never spawned by name: arg + 8 (or + 7)
     BareReply { tail: bool },
+    /// two children (wherever they are placed) and the process itself each mint a ref; the refs are
+    /// compared pairwise: every minting is distinct, a ref equals itself: arg + 1
+    RefKids,
+    /// two selects in a row, each over a process that cannot finish in time and a message the process
+    /// sent itself beforehand; the first select's process is released right after it, so its
+    /// completion - owed to a select that is over - travels while the second select's own query is
+    /// being answered "not finished yet" by the same worker: (arg+5)*100 + arg+6
+    SelTwice,
 }
 
 pub struct Gen {
@@ -93,7 +101,9 @@ impl Gen {
             8 => Node::Chain { inner: Box::new(Self::random_node(rng, depth - 1, budget)) },
             9 => {
                 *budget -= 1;
-                if rng.chance(1, 3) {
+                if rng.chance(1, 4) {
+                    if rng.chance(1, 2) { Node::RefKids } else { Node::SelTwice }
+                } else if rng.chance(1, 3) {
                     Node::BareReply { tail: rng.chance(2, 3) }
                 } else {
                     Node::BinChild { spin: *rng.pick(&[0u32, 10, 60, 200]), reps: 1 + rng.below(5) as u32 }
@@ -218,6 +228,18 @@ impl Gen {
                 self.defs.push(format!("{name} = #'int {{ =n, c = n @#'int {{ =m, {sp}[[0x0a0b, {reps}] __binary_repeat__, 0xff] __binary_concat__ }}, b = !c, [b __binary_length__, n] __integer_add__ }}"));
                 name
             }
+            Node::SelTwice => {
+                self.procs += 3;
+                let name = self.fresh();
+                self.defs.push(format!("{name} = #'int {{ =n, t1 = @blk, d = @#{{ 0 }}, t2 = @blk, me = &., [n, 5] __integer_add__ me, [n, 6] __integer_add__ me, x = ! [t1, #'int], 1 t1, y = ! [t2, #'int], [[x, 100] __integer_multiply__, y] __integer_add__ }}"));
+                name
+            }
+            Node::RefKids => {
+                self.procs += 2;
+                let name = self.fresh();
+                self.defs.push(format!("{name} = #'int {{ =n, c0 = @#{{ __reference__ }}, c1 = @#{{ __reference__ }}, r0 = !c0, r1 = !c1, r2 = __reference__, e0 = [r0, r1] {{ | =[x, x] => 1 | 0 }}, e1 = [r0, r2] {{ | =[x, x] => 1 | 0 }}, e2 = [r1, r2] {{ | =[x, x] => 1 | 0 }}, e3 = [r0, r0] {{ | =[x, x] => 1 | 0 }}, [[n, e0] __integer_add__, [[e1, e2] __integer_add__, e3] __integer_add__] __integer_add__ }}"));
+                name
+            }
             Node::BareReply { tail } => {
                 self.procs += 1;
                 let inner = self.fresh();
@@ -278,6 +300,8 @@ pub fn eval(node: &Node, arg: i128) -> i128 {
         Node::SelProc { inner, .. } => eval(inner, arg + 1) + 3,
         Node::BinChild { reps, .. } => (2 * *reps as i128 + 1) + arg,
         Node::BareReply { tail } => arg + 7 + *tail as i128,
+        Node::RefKids => arg + 1,
+        Node::SelTwice => (arg + 5) * 100 + arg + 6,
         Node::SelDone { a, b, swap } => {
             let (va, vb) = (eval(a, arg + 1), eval(b, arg + 2));
             let (first, second) = if *swap { (vb, va) } else { (va, vb) };
@@ -343,6 +367,8 @@ pub fn shape(node: &Node, h: &mut crate::rng::Fnv) {
             h.u64(10);
             h.u64(*tail as u64);
         }
+        Node::RefKids => h.u64(11),
+        Node::SelTwice => h.u64(12),
     }
 }
 
